@@ -142,7 +142,10 @@ def worker(args, scratch):
                 kw = {}
                 if kind in ("ne-ws", "ne-hga") and r.random() < 0.25:
                     # the same process was elevated a moment ago (a daemon that dropped privileges, a recycled pid): the record of THIS
-                    # connection says non-elevated and that is what counts
+                    # connection says non-elevated and that is what counts. Every fourth history uses a process the agent has never seen
+                    # before, so that its very first connection is the elevated one.
+                    if cnt.get("privilege_drop_histories", 0) % 4 == 0:
+                        ident = w.identity(ident.user, "dropper", ["--n", str(n)])
                     pre = w.open(dest, ident, uid=0, is_root=1)
                     pre.send(rawhttp.build_request("GET", "/pre", [("x-vf-id", "pre-%d-%d-%d" % (args["shard"], pol, n))]))
                     try:
